@@ -2,7 +2,7 @@
 from . import _tm
 
 ID = "C20"
-LEVEL = "proof"
+LEVEL = "other"
 EXPLANATION = (
     "Cache-fill postconditions with a ghost consultation counter, all unbounded: MultiTypeMap.__missing__ (plain key) returns with the key cached and "
     "performs exactly one resolution; on a code-prefixed key whose tuple is already cached it performs none; TypeMap.__missing__ caches its result "
@@ -43,8 +43,8 @@ def concretise(obname, detail, task_result, native):
 
 
 MANIFEST = dict(
-    category="proof",
-    text="Every obligation is unbounded: cache-fill postconditions and a ghost consultation counter on the real ASTs of both tables' __missing__, plus AST frame obligations (only register/clear remove entries; the lookup reaches user hooks only through resolve).",
+    category="other",
+    text="Mixed: the cache-fill postconditions with a ghost consultation counter on the real ASTs of both tables' __missing__, the AST frame obligations (only register/clear remove entries; the lookup reaches user hooks only through resolve; every call site of Ovld.compile is guarded) and the state inventory are unbounded and all discharged (reported under obligations/discharged); 'a first use or a lock never rebuilds another function' is verified on an enumerated family of derivation graphs (<=3 nodes, flags symbolic) and reported under bounded_*, never as proved.",
     design_ref="6/C20",
     note="Trusted: CPython dict protocol (hits bypass __missing__), the abstract contract of resolve at its call site, z3. Generated entry point / rewritten call sites indexing the table directly: checked natively (counter suite), deductively in C03/C09's layers.",
     technique="contract-based deductive verification (pyvc + z3): cache-fill postconditions, ghost counter, AST frame obligations",
